@@ -285,3 +285,6 @@ scope_seq!(scope_lelxr_local, scope_lelxr_top, scope_lelxr_block, b"LELXR");
 scope_seq!(scope_lelxa_local, scope_lelxa_top, scope_lelxa_block, b"LELXA");
 scope_seq!(scope_elxelr_local, scope_elxelr_top, scope_elxelr_block, b"ELXELR");
 scope_seq!(scope_lelar_local, scope_lelar_top, scope_lelar_block, b"LELAR");
+// sibling blocks: a name declared in a block that has ended is invisible in a later block
+scope_seq!(scope_elxer_local, scope_elxer_top, scope_elxer_block, b"ELXER");
+scope_seq!(scope_elxea_local, scope_elxea_top, scope_elxea_block, b"ELXEA");
